@@ -3,6 +3,8 @@ CONSTANTS
   Libraries <- LibrariesT
   Rewards <- RewardsC
   MaxFamily = 4
-  PrevOffset = 16384
+  PrevOffsets = {0, 16384}
+  MaxFamilyOf <- MaxFamilyQ
+  PlanChoices <- NoPlanChoices
 CONSTRAINT NoPlans
 INVARIANTS Emit
